@@ -1,6 +1,6 @@
 #!/bin/sh
 # tools/seedtest.sh <prop> <patch> : apply a seeded change to /repo, run ./check <prop>, undo it straight afterwards
 prop=$1; patch=$2
-git -C /repo apply "$patch" || { echo "patch does not apply"; exit 9; }
+git -C /repo apply "$(realpath $patch)" || { echo "patch does not apply"; exit 9; }
 cd /verif && ./check $prop 2>&1 | grep -v "^ENGINE\|^UNDECIDED ('" | tail -${TAIL:-8}
 git -C /repo checkout -- .
